@@ -133,6 +133,16 @@ fn apply(view: &SourceView, text: &str, op: Op) -> Option<(String, String)> {
                 if got != model {
                     return Some(("lines/iterator".into(), format!("lines() = {got:?}, expected {model:?}")));
                 }
+                // the iterator's other ways of advancing
+                for k in 0..=model.len().min(5) {
+                    let want = model.get(k).copied();
+                    let mut it = view.lines();
+                    let nth = it.nth(k);
+                    let after = it.next();
+                    if nth != want || view.lines().skip(k).next() != want || after != model.get(k + 1).copied() {
+                        return Some(("lines/iterator-nth".into(), format!("lines().nth({k}) = {nth:?} then next() = {after:?}; expected {want:?} then {:?}", model.get(k + 1))));
+                    }
+                }
             }
             Op::Slice(line, col, span) => {
                 let got = view.get_line_slice(line, col, span);
